@@ -276,7 +276,10 @@ LEDGER_STMTS = ['SELECT count(*)', 'SELECT account, sum(position) GROUP BY accou
                 'SELECT count(*) FROM #entries', 'SELECT date, balance WHERE account ~ "Checking"', 'SELECT count(*) FROM year = 2020 CLOSE', 'JOURNAL "Food" FROM CLOSE ON 2020-02-01',
                 'SELECT %s, narration FROM year = %s ORDER BY date', 'SELECT meta(%s), entry_meta(%s) WHERE any_meta(%s) IS NOT NULL',
                 # statements over another table than the default one, compiled on the same connection (the shell's path: Connection.compile)
-                'PRINT FROM year = 2020', 'SELECT account FROM #accounts ORDER BY account', 'PRINT FROM CLOSE ON 2020-02-01']
+                'PRINT FROM year = 2020', 'SELECT account FROM #accounts ORDER BY account', 'PRINT FROM CLOSE ON 2020-02-01',
+                # statements that read posting metadata after any_meta() looked keys up; arithmetic whose digits depend on the decimal context
+                "SELECT account, meta('ref'), meta('who') WHERE meta('ref') IS NOT NULL OR meta('who') IS NOT NULL", 'SELECT round(0.0, 40), round(number, 20), round(0.00, 30) WHERE number > 0',
+                'SELECT number / 3, number / 7 WHERE number > 0 ORDER BY date, account']
 LEDGER_PARAMS = {10: ('tag', 2020), 11: ('memo', 'ref', 'ref')}
 
 
@@ -294,7 +297,24 @@ def _ledger_run(c, q, params):
 def check_ledger_history(hist):
     """histories over a Beancount-backed connection: each execution equals the same statement on a fresh connection"""
     from harness import ledger
+    import decimal as _decimal
     c = ledger.connect()
+    entries = ledger.load(ledger.LEDGER_A)[0]
+    snap = lambda: copy.deepcopy([(e.meta, [p.meta for p in getattr(e, 'postings', None) or []]) for e in entries])
+    ctx = lambda: (_decimal.getcontext().prec, _decimal.getcontext().rounding, _decimal.getcontext().Emax, _decimal.getcontext().Emin)
+    before, ctx_before = snap(), ctx()
+    bad = _ledger_steps(c, hist)
+    if bad:
+        return bad
+    if snap() != before:
+        return ('executing never mutates the source data (metadata of the directives and postings of the ledger)', {'ledger_history': [LEDGER_STMTS[i] for i in hist], 'step': len(hist) - 1}, 'metadata changed', 'unchanged')
+    if ctx() != ctx_before:
+        return ('executing leaves the ambient decimal context alone (later results would depend on it)', {'ledger_history': [LEDGER_STMTS[i] for i in hist], 'step': len(hist) - 1}, ctx(), ctx_before)
+    return None
+
+
+def _ledger_steps(c, hist):
+    from harness import ledger
     for step, si in enumerate(hist):
         q = LEDGER_STMTS[si]
         params = LEDGER_PARAMS.get(si)
